@@ -26,6 +26,11 @@ inductive Node where
   | fill (name : Expr) (dataVar : Option Str) (defaultVar : Option Str) (body : List Node)
   | comp (name : Str) (kwargs : List (Str × Expr)) (only : Bool) (dyn : Bool) (body : List Node)
   | provide (key : Str) (kwargs : List (Str × Expr)) (body : List Node)
+  -- Django's composition tags (C10): resolved by `Djc.Blocks.flatten` before interpretation
+  | block (name : Str) (body : List Node)
+  | blockSuper
+  | extends (parent : Str)
+  | includen (name : Str)
 deriving Repr, Inhabited
 
 /-- Python values as far as templates and the library look into them -/
